@@ -544,6 +544,9 @@ def e2e(ctx):
         base = {"kind": "e2e", "codemod": k, "rel": j["rel"], "sites": j["sites"], "lines": j["lines"], "shapes": j.get("shapes"),
                 "exclude": anon(o["exc"]),
                 "include": anon(o["inc"]), "argv": o["argv"], "relative_target": j["relative_target"]}
+        if o["rc"] == -9:
+            ctx.mismatch("CLI run of the conformance search", f"{k}: the run timed out; no observation", base)
+            continue
         if o["rc"] != 0:
             ctx.violation(f"kf_c13_cli_failed:{k}", f"CLI exited {o['rc']}: {o['stderr'][-300:]}", base)
             continue
